@@ -199,6 +199,39 @@ def run(out, replay_path=None):
     # builder options given in the other order (configuration must not depend on it)
     jobs.append(('bounded', True, 0, 0, 0, 1, pid, 60000, 'hc'))
     ctx = mp.get_context('fork')
+    # phase 1 (seconds): extraction + static obligations only; a static finding of this property that reproduces natively
+    # is reported at once - the product of a changed (possibly much larger) automaton is not worth waiting for then
+    pre = [(cm_, h_, 0, 0, 0, 1, pid, 60000, 'ch') for cm_ in ('bounded', 'unbounded') for h_ in (True, False)]
+    with ctx.Pool(len(pre)) as pool:
+        pre_results = pool.map(_job, pre, chunksize=1)
+    early, seen_sc = [], set()
+    for r in pre_results:
+        for f in r['findings']:
+            if f['prop'] == pid and f.get('scenario'):
+                k = json.dumps(f['scenario'], sort_keys=True, default=str)
+                if k not in seen_sc:
+                    seen_sc.add(k)
+                    f['config'] = r['config']
+                    early.append(f)
+    if early:
+        outs = replay.run_scenarios([f['scenario'] for f in early], profile='dev', timeout=600)
+        hits = [(f, [v for v in o.get('violations', []) if v['prop'] == pid]) for f, o in zip(early, outs)]
+        hits = [(f, h) for f, h in hits if h]
+        if hits:
+            out.evidence = {'level': 'model_checking', 'assumptions': ASSUMPTIONS,
+                            'coverage': {'states': 1, 'transitions': sum(r.get('steps', 0) for r in pre_results) or 1, 'traces_validated_against_impl': len(early),
+                                         'obligations': sum(r['programs'].get(k, {}).get('paths', 0) for r in pre_results for k in r['programs']),
+                                         'evaluations': len(early), 'distinct_nontrivial': len(early),
+                                         'rule': 'static obligations on the extracted thread programs only (a violated one reproduced natively; the product was not built)',
+                                         'samples': [{'static_finding': hits[0][0]['detail'][:400]}]}}
+            seenc = set()
+            for f, h in hits:
+                if h[0]['clause'] in seenc:
+                    continue
+                seenc.add(h[0]['clause'])
+                out.violations.append({'key': 'queue:%s' % h[0]['clause'], 'what': '%s: %s (static obligation %s: %s)' % (h[0]['clause'], h[0]['detail'], f['clause'], f['detail'][:200]),
+                                       'scenario': dict(f['scenario']), 'native': h})
+            return
     with ctx.Pool(min(len(jobs), max(1, (os.cpu_count() or 4) - 1))) as pool:
         results = pool.map(_job, jobs, chunksize=1)
     findings, nq, st, errors = [], 0, 0.0, []
